@@ -27,7 +27,7 @@ def _calls_in(facts, q):
     return out
 
 
-def inlinable_helper(facts, f, call):
+def inlinable_helper(facts, f, call, single_use=True):
     """the helper called by `call` (in f) when it may be inlined: an in-repo free function in the same file with a body, not
     recursive, called from this one place only, with as many arguments as parameters"""
     if not call.get('callee_in_repo') or call.get('obj') is not None or call.get('ck') == 'operator':
@@ -39,9 +39,10 @@ def inlinable_helper(facts, f, call):
     h = hs[0]
     if h is f or len(h.get('params', [])) != len(call.get('args', [])):
         return None
-    sites = _calls_in(facts, h['q'])
-    if len(sites) != 1:
-        return None
+    if single_use:
+        sites = _calls_in(facts, h['q'])
+        if len(sites) != 1:
+            return None
     if any(e.get('callee') == h['q'] for e in walk_all_exprs(h['body']) if e.get('k') == 'call'):
         return None
     if any(st['k'] in ('goto', 'label', 'try') for st in walk_stmts(h['body'])):
@@ -104,7 +105,7 @@ def _replace_returns(s, target_expr, leave_id):
     return s
 
 
-def _inline_one(facts, f, stmt, want=None):
+def _inline_one(facts, f, stmt, want=None, single_use=True):
     """the replacement for statement `stmt` of f when it is `h(..);`, `x = h(..);`, `T x = h(..);` or `return h(..);`
     with an inlinable h; None otherwise"""
     call = target = None
@@ -131,7 +132,7 @@ def _inline_one(facts, f, stmt, want=None):
             call, is_return = e, True
     if call is None:
         return None
-    h = inlinable_helper(facts, f, call)
+    h = inlinable_helper(facts, f, call, single_use)
     if h is None or (want is not None and not want(h, call)):
         return None
     body = copy.deepcopy(h['body'])
@@ -155,10 +156,10 @@ def _inline_one(facts, f, stmt, want=None):
             'loc': stmt.get('loc'), 'sid': stmt.get('sid'), 'flattened': bool(pre)}
 
 
-def _rewrite(facts, f, s, done, want=None):
+def _rewrite(facts, f, s, done, want=None, single_use=True):
     if s is None:
         return s
-    rep = _inline_one(facts, f, s, want)
+    rep = _inline_one(facts, f, s, want, single_use)
     if rep is not None:
         done.append(rep)
         return rep
@@ -166,7 +167,7 @@ def _rewrite(facts, f, s, done, want=None):
     if k == 'block':
         new = []
         for c in s['s']:
-            r = _rewrite(facts, f, c, done, want)
+            r = _rewrite(facts, f, c, done, want, single_use)
             # a declaration hoisted out of its initialiser stays visible to the following statements
             if r is not c and r.get('flattened'):
                 new.extend(r['s'])
@@ -176,24 +177,24 @@ def _rewrite(facts, f, s, done, want=None):
     elif k == 'if':
         for key in ('t', 'e'):
             if s.get(key):
-                s[key] = _rewrite(facts, f, s[key], done, want)
+                s[key] = _rewrite(facts, f, s[key], done, want, single_use)
     elif k in ('for', 'while', 'do', 'rangefor'):
         if s.get('body'):
-            s['body'] = _rewrite(facts, f, s['body'], done, want)
+            s['body'] = _rewrite(facts, f, s['body'], done, want, single_use)
     elif k == 'switch':
         for c in s['cases']:
-            c['s'] = [_rewrite(facts, f, x, done, want) for x in c['s']]
+            c['s'] = [_rewrite(facts, f, x, done, want, single_use) for x in c['s']]
     return s
 
 
-def inlined(facts, f, rounds=2, want=None):
+def inlined(facts, f, rounds=2, want=None, single_use=True):
     """a copy of f with its single-use helpers inlined (at most `rounds` levels); (copy, names of the inlined helpers).
     The copy has its own 'sig' so that per-function caches (CFG, definitions) do not mix it up with the original."""
     g = copy.deepcopy(f)
     names = []
     for _ in range(rounds):
         done = []
-        g['body'] = _rewrite(facts, f, g['body'], done, want)
+        g['body'] = _rewrite(facts, f, g['body'], done, want, single_use)
         if not done:
             break
         for d in done:
